@@ -95,7 +95,7 @@ def _sweep_one(sc, host_tz):
                 if now + off < 0: continue
                 s = {'now_us': now, 'cron': None, 'cron_offset': None, 'time': {'dt_us': now + off, 'aware': aware, 'tz': tz}, 'is_now_value': False}
                 r = run(s); n += 1
-                if r['spec_failures']: fails.append({'key': f"now={now} T-now={off}us aware={aware} tz={tz}", 'inputs': r['inputs'], 'result': r.get('result', r.get('raised')), 'failed_clauses': ['C14: ' + x for x in r['spec_failures']]})
+                if r['spec_failures']: fails.append({'key': f"now={now} T-now={off}us aware={aware} tz={tz}", 'inputs': r['inputs'], 'result': r.get('result', r.get('raised')), 'failed_clauses': [pid_ + ': ' + x for x in r['spec_failures'] for pid_ in ('C14', 'C15')]})
         for off in (None, {'td_us': 0}, {'td_us': 3600 * US}, {'td_us': -26 * 3600 * US + 1}, {'str': 'Europe/Berlin'}, {'str': 'Asia/Kathmandu'}, {'str': 'UTC'}):
             for val in (True, False):
                 s = {'now_us': now, 'cron': {'str': '*/5 * * * *'}, 'cron_offset': off, 'time': None, 'is_now_value': val}
